@@ -231,7 +231,7 @@ def class_compose(ctx):
     return out
 
 
-@rule("CLASS-ADDEND", ["C09"], floor=3)
+@rule("CLASS-ADDEND", ["C09", "C07"], floor=3)
 def class_addend(ctx):
     """Inside [...], a multi-character escape is united into the addend (never dropped, never subtracted);
     the nested class after '-[' becomes the subtrahend."""
